@@ -155,7 +155,10 @@ impl QoSController {
 
     pub fn add_resource(&mut self, resource: ResourceStructure) {
         self.number_of_resources += 1;
-        self.length += resource.len() as u16;
+        self.length = self
+            .length
+            .checked_add(resource.len() as u16)
+            .expect("controller length must fit its 16-bit field");
         self.resource_structure.push(resource);
     }
 }
@@ -203,6 +206,8 @@ pub struct ResourceStructure {
 impl ResourceStructure {
     pub fn new(resource_type: ResourceType, resource_flags: u16, resource_id: ResourceID) -> Self {
         let length = size_of::<u8>() * 3 + size_of::<u16>() * 2 + resource_id.len();
+        // the resource length is a 16-bit field
+        assert!(length <= 65535);
 
         Self {
             resource_type,
